@@ -212,6 +212,266 @@ theorem offering_can_move (cfg : Cfg) (s : St) (i : Bool) (ho : s.sender i = .of
     deliver cfg s i ≠ [] ∨ release cfg s i ≠ [] := by
   cases hm : s.main <;> cases hok : cfg.ok i <;> cases hst : cfg.resolveStyle <;> simp [deliver, release, ho, hm, hok, hst]
 
+/-! ### Progress
+
+Safety above says what a state may look like; the theorems below say that the
+code can always MOVE, and which goroutine can: main can return as soon as one
+successful answer is on offer (the other member may still be inside its call),
+main can return as soon as the caller's context is cancelled, and no reachable
+state short of the end is stuck. Same method: a decidable statement evaluated by
+the kernel over the whole reachable set, then lifted to every schedule. -/
+
+/-- The steps of MAIN alone: take sender 0's result, take sender 1's, or take `<-ctx.Done()`. -/
+def mainSteps (cfg : Cfg) (s : St) : List St := deliver cfg s false ++ deliver cfg s true ++ mainCtxDone s
+
+/-- The steps of ociunify's own goroutines (main and the two senders once `f` has
+returned): `sysStep` without the members' calls returning. -/
+def codeSteps (cfg : Cfg) (s : St) : List St := mainSteps cfg s ++ release cfg s false ++ release cfg s true
+
+/-- The sender goroutine has exited. -/
+def finished (x : Sender) : Bool := x == .delivered || x == .released
+
+/-- The end of a call: main has returned and both sender goroutines have exited. -/
+def terminal (s : St) : Bool := s.main == .returned && finished s.s0 && finished s.s1
+
+/-- Member `i`'s successful answer is on offer: its sender stands at `c <- result{…}`. -/
+def onOffer (cfg : Cfg) (s : St) (i : Bool) : Bool := s.sender i == .offering && cfg.ok i
+
+/-- Main has not returned and `i`'s success is on offer ⇒ taking it is an enabled step of the
+system, a step of main, and main returns `i`'s answer by it; and whichever step main takes
+(Go's `select` may prefer the other ready case) it has returned after at most two steps OF ITS
+OWN — no step of a member or a sender is needed in between. -/
+def succEnablesAt (cfg : Cfg) (s : St) (i : Bool) : Bool :=
+  imp (s.main != .returned && onOffer cfg s i)
+    (((deliver cfg s i).any fun s' =>
+        (step cfg s).contains s' && (mainSteps cfg s).contains s' && s'.main == .returned && s'.ret == resOf i) &&
+     ((mainSteps cfg s).all fun s' =>
+        s'.main == .returned ||
+        (!(mainSteps cfg s').isEmpty && (mainSteps cfg s').all fun s'' => s''.main == .returned)))
+
+/-- The caller has cancelled and main has not returned ⇒ `<-ctx.Done()` is an enabled step. -/
+def cancelEnablesAt (cfg : Cfg) (s : St) : Bool :=
+  imp (s.callerCancelled && s.main != .returned)
+    ((mainCtxDone s).any fun s' =>
+      (step cfg s).contains s' && (mainSteps cfg s).contains s' && s'.main == .returned && s'.ret == .ctxErr)
+
+/-- Not at the end ⇒ some step of the code under analysis is enabled; and if none of ociunify's
+own goroutines can move, then main is waiting, nobody has cancelled, nothing is on offer and a
+member is still inside its call: the only thing waited for is a member. -/
+def noDeadlockAt (cfg : Cfg) (s : St) : Bool :=
+  imp (!terminal s) (!(sysStep cfg s).isEmpty) &&
+  imp (!terminal s && (codeSteps cfg s).isEmpty)
+    ((s.s0 == .running || s.s1 == .running) && s.s0 != .offering && s.s1 != .offering &&
+     imp (s.main != .returned) (!s.callerCancelled))
+
+def progressAt (cfg : Cfg) (s : St) : Bool :=
+  succEnablesAt cfg s false && succEnablesAt cfg s true && cancelEnablesAt cfg s && noDeadlockAt cfg s
+
+theorem progress_checked : ∀ cfg ∈ allCfgs, (reachable cfg).all (progressAt cfg) = true := by decide +kernel
+
+theorem all_paths_progress (cfg : Cfg) (s : St) (h : Reach cfg s) : progressAt cfg s = true := by
+  have hc := progress_checked cfg (allCfgs_complete cfg)
+  simp only [List.all_eq_true] at hc
+  exact hc s (reach_in_reachable cfg s h)
+
+/-- RETURNS WITHOUT WAITING FOR THE SLOWER MEMBER. On every schedule, in every state
+where main has not returned and member `i`'s successful answer is on offer, the step
+"main takes `i`'s answer" is enabled, and by it the call returns `i`'s answer. Nothing
+is assumed about the other member: its sender may still be `running` (the member is
+still inside its call — see the example), `offering` (then Go's `select` may take
+either; `success_return_within_two` covers that choice), or done. -/
+theorem success_enables_return (cfg : Cfg) (s : St) (h : Reach cfg s) (i : Bool)
+    (hm : s.main ≠ .returned) (ho : s.sender i = .offering) (hok : cfg.ok i = true) :
+    ∃ s', s' ∈ deliver cfg s i ∧ s' ∈ mainSteps cfg s ∧ s' ∈ step cfg s ∧ s'.main = .returned ∧ s'.ret = resOf i := by
+  have hp := all_paths_progress cfg s h
+  simp only [progressAt, Bool.and_eq_true] at hp
+  obtain ⟨⟨⟨hf, ht⟩, _⟩, _⟩ := hp
+  have key : succEnablesAt cfg s i = true := by cases i <;> assumption
+  simp only [succEnablesAt, imp, onOffer, Bool.or_eq_true, Bool.not_eq_true', Bool.and_eq_true, List.any_eq_true] at key
+  rcases key with key | key
+  · exfalso
+    simp [ho, hok] at key
+    exact hm key
+  · obtain ⟨⟨s', hs', hr⟩, _⟩ := key
+    simp only [contains_iff, beq_iff_eq] at hr
+    exact ⟨s', hs', hr.1.1.2, hr.1.1.1, hr.1.2, hr.2⟩
+
+/-- … and whichever ready case main's `select` takes in such a state, main has returned
+after at most two steps of its own: every step of main either returns, or leads to a
+state where main can step again and every step of main returns. No step of the other
+member, or of any sender goroutine, is needed. -/
+theorem success_return_within_two (cfg : Cfg) (s : St) (h : Reach cfg s) (i : Bool)
+    (hm : s.main ≠ .returned) (ho : s.sender i = .offering) (hok : cfg.ok i = true) :
+    ∀ s' ∈ mainSteps cfg s, s'.main = .returned ∨
+      (mainSteps cfg s' ≠ [] ∧ ∀ s'' ∈ mainSteps cfg s', s''.main = .returned) := by
+  have hp := all_paths_progress cfg s h
+  simp only [progressAt, Bool.and_eq_true] at hp
+  obtain ⟨⟨⟨hf, ht⟩, _⟩, _⟩ := hp
+  have key : succEnablesAt cfg s i = true := by cases i <;> assumption
+  simp only [succEnablesAt, imp, onOffer, Bool.or_eq_true, Bool.not_eq_true', Bool.and_eq_true, List.all_eq_true] at key
+  rcases key with key | key
+  · exfalso
+    simp [ho, hok] at key
+    exact hm key
+  · intro s' hs'
+    have := key.2 s' hs'
+    simpa [List.isEmpty_iff] using this
+
+/-- RETURNS AFTER CANCELLATION. On every schedule, in every state where the caller's
+context is cancelled and main has not returned, main's `<-ctx.Done()` branch is an
+enabled step and by it the call returns the context's error — whatever the members
+do: nothing is assumed about either sender (both may be `running` for ever). -/
+theorem cancel_enables_return (cfg : Cfg) (s : St) (h : Reach cfg s)
+    (hc : s.callerCancelled = true) (hm : s.main ≠ .returned) :
+    ∃ s', s' ∈ mainCtxDone s ∧ s' ∈ mainSteps cfg s ∧ s' ∈ step cfg s ∧ s'.main = .returned ∧ s'.ret = .ctxErr := by
+  have hp := all_paths_progress cfg s h
+  simp only [progressAt, Bool.and_eq_true] at hp
+  obtain ⟨⟨_, key⟩, _⟩ := hp
+  simp only [cancelEnablesAt, imp, Bool.or_eq_true, Bool.not_eq_true', Bool.and_eq_true, List.any_eq_true] at key
+  rcases key with key | key
+  · exfalso
+    simp [hc] at key
+    exact hm key
+  · obtain ⟨s', hs', hr⟩ := key
+    simp only [contains_iff, beq_iff_eq] at hr
+    exact ⟨s', hs', hr.1.1.2, hr.1.1.1, hr.1.2, hr.2⟩
+
+/-- NO DEADLOCK. On every schedule, every state that is not the end of the call (main
+returned, both sender goroutines gone) has an enabled step of the code under analysis. -/
+theorem no_deadlock (cfg : Cfg) (s : St) (h : Reach cfg s) (hn : terminal s = false) : sysStep cfg s ≠ [] := by
+  have hp := all_paths_progress cfg s h
+  simp only [progressAt, noDeadlockAt, Bool.and_eq_true] at hp
+  have key := hp.2.1
+  simpa [imp, hn, List.isEmpty_iff] using key
+
+/-- … and when the enabled step is not one of ociunify's own goroutines, the only thing
+waited for is a member that is still inside its call: no answer is on offer, and if
+main is still waiting the caller has not cancelled. -/
+theorem blocked_only_on_members (cfg : Cfg) (s : St) (h : Reach cfg s) (hn : terminal s = false)
+    (hcode : codeSteps cfg s = []) :
+    (s.s0 = .running ∨ s.s1 = .running) ∧ s.s0 ≠ .offering ∧ s.s1 ≠ .offering ∧
+    (s.main ≠ .returned → s.callerCancelled = false) := by
+  have hp := all_paths_progress cfg s h
+  simp only [progressAt, noDeadlockAt, Bool.and_eq_true] at hp
+  have key := hp.2.2
+  simp [imp, hn, hcode, and_assoc] at key
+  obtain ⟨a, b, c, d⟩ := key
+  exact ⟨a, b, c, fun hm => d.resolve_left hm⟩
+
+/-- A state with no enabled step of the code is the end of the call, and settled. -/
+theorem stuck_is_terminal (cfg : Cfg) (s : St) (h : Reach cfg s) (hq : sysStep cfg s = []) :
+    terminal s = true ∧ settled cfg s = true := by
+  refine ⟨?_, all_paths_settle cfg s h (by simp [quiescent, hq])⟩
+  cases ht : terminal s
+  · exact absurd hq (no_deadlock cfg s h ht)
+  · rfl
+
+/-- A schedule of the code under analysis: `n` steps of `sysStep` from `s` to `s'`.
+(The caller's own steps — cancelling, closing the reader — are not obligations of the
+code; each can happen at most once and may be interleaved anywhere: `Reach` covers them.) -/
+inductive SysRun (cfg : Cfg) : St → Nat → St → Prop where
+  | nil (s : St) : SysRun cfg s 0 s
+  | cons {s s' s'' : St} {n : Nat} : s' ∈ sysStep cfg s → SysRun cfg s' n s'' → SysRun cfg s (n + 1) s''
+
+theorem sysRun_reach {cfg : Cfg} {s s' : St} {n : Nat} (h : Reach cfg s) (r : SysRun cfg s n s') : Reach cfg s' := by
+  induction r with
+  | nil => exact h
+  | cons hs _ ih => exact ih (Reach.step h (List.mem_append_left _ hs))
+
+theorem sysRun_rank {cfg : Cfg} {s s' : St} {n : Nat} (h : Reach cfg s) (r : SysRun cfg s n s') :
+    n + rank s' ≤ rank s := by
+  induction r with
+  | nil => simp
+  | cons hs _ ih =>
+    have h1 := all_paths_terminate cfg _ _ h hs
+    have h2 := ih (Reach.step h (List.mem_append_left _ hs))
+    omega
+
+theorem rank_le_six (s : St) : rank s ≤ 6 := by
+  obtain ⟨m, _, a, b, _, _, _, _, _, _⟩ := s
+  cases m <;> cases a <;> cases b <;> simp [rank]
+
+/-- EVERY MAXIMAL SCHEDULE ENDS AT THE END OF THE CALL. From any state of any schedule,
+a run of the code has at most `rank s ≤ 6` steps (`all_paths_terminate`), and a run that
+cannot be extended (`no_deadlock`) stops in a terminal, settled state: main has
+returned, both sender goroutines are gone, every loser's reader is closed. -/
+theorem maximal_schedule_ends_terminal (cfg : Cfg) (s s' : St) (n : Nat) (h : Reach cfg s)
+    (r : SysRun cfg s n s') (hmax : sysStep cfg s' = []) :
+    n ≤ 6 ∧ terminal s' = true ∧ settled cfg s' = true := by
+  have hb := sysRun_rank h r
+  have h6 := rank_le_six s
+  exact ⟨by omega, stuck_is_terminal cfg s' (sysRun_reach h r) hmax⟩
+
+/-- … and a run that can be extended is extended by some step: there is no third case. -/
+theorem schedule_extends_or_ends (cfg : Cfg) (s s' : St) (n : Nat) (h : Reach cfg s) (r : SysRun cfg s n s') :
+    terminal s' = true ∨ ∃ s'', s'' ∈ sysStep cfg s' := by
+  cases ht : terminal s'
+  · right
+    have := no_deadlock cfg s' (sysRun_reach h r) ht
+    cases hl : sysStep cfg s' with
+    | nil => exact absurd hl this
+    | cons x _ => exact ⟨x, by simp⟩
+  · exact Or.inl rfl
+
+/-! #### Non-vacuity of the progress theorems, at concrete reachable states -/
+
+/-- reader-style, both members succeed: member 0 has answered, member 1 is still inside its call -/
+def exFast : St := { init with s0 := .offering }
+/-- both answers on offer at the same moment, member 0's a failure -/
+def exBoth : St := { init with s0 := .offering, s1 := .offering }
+/-- the caller has cancelled, both members still inside their calls -/
+def exCancelled : St := { init with callerCancelled := true }
+
+theorem exFast_reach (cfg : Cfg) : Reach cfg exFast :=
+  Reach.step Reach.init (by simp [step, sysStep, memberReturn, init, St.sender, St.setSender, exFast])
+theorem exBoth_reach (cfg : Cfg) : Reach cfg exBoth :=
+  Reach.step (exFast_reach cfg) (by simp [step, sysStep, memberReturn, init, St.sender, St.setSender, exFast, exBoth])
+theorem exCancelled_reach (cfg : Cfg) : Reach cfg exCancelled :=
+  Reach.step Reach.init (by simp [step, sysStep, envStep, callerCancel, init, exCancelled])
+
+/-- `success_enables_return` with the other sender still `running`: main returns member 0's answer. -/
+example : exFast.s1 = .running ∧
+    ∃ s', s' ∈ deliver ⟨true, true, false⟩ exFast false ∧ s' ∈ mainSteps ⟨true, true, false⟩ exFast ∧
+      s' ∈ step ⟨true, true, false⟩ exFast ∧ s'.main = .returned ∧ s'.ret = .res0 :=
+  ⟨rfl, success_enables_return ⟨true, true, false⟩ exFast (exFast_reach _) false (by decide) rfl rfl⟩
+
+/-- both on offer, member 0 failed and member 1 succeeded: taking the failure first is a step of
+main that does not return (so the first disjunct alone would be false), and main returns with its next step. -/
+example : (∃ s' ∈ mainSteps ⟨false, true, false⟩ exBoth, s'.main ≠ .returned) ∧
+    ∀ s' ∈ mainSteps ⟨false, true, false⟩ exBoth, s'.main = .returned ∨
+      (mainSteps ⟨false, true, false⟩ s' ≠ [] ∧ ∀ s'' ∈ mainSteps ⟨false, true, false⟩ s', s''.main = .returned) :=
+  ⟨by decide, success_return_within_two ⟨false, true, false⟩ exBoth (exBoth_reach _) true (by decide) rfl rfl⟩
+
+/-- `cancel_enables_return` with both members still inside their calls. -/
+example : exCancelled.s0 = .running ∧ exCancelled.s1 = .running ∧
+    ∃ s', s' ∈ mainCtxDone exCancelled ∧ s' ∈ mainSteps ⟨true, true, false⟩ exCancelled ∧
+      s' ∈ step ⟨true, true, false⟩ exCancelled ∧ s'.main = .returned ∧ s'.ret = .ctxErr :=
+  ⟨rfl, rfl, cancel_enables_return ⟨true, true, false⟩ exCancelled (exCancelled_reach _) rfl (by decide)⟩
+
+/-- `no_deadlock` / `blocked_only_on_members`: the initial state is not terminal, its only enabled
+steps are the members' returns; `exFast` is not terminal and main can move. -/
+example : terminal init = false ∧ sysStep ⟨true, true, false⟩ init ≠ [] ∧ codeSteps ⟨true, true, false⟩ init = [] ∧
+    terminal exFast = false ∧ codeSteps ⟨true, true, false⟩ exFast ≠ [] :=
+  ⟨rfl, no_deadlock _ init Reach.init rfl, by decide, rfl, by decide⟩
+
+/-- `maximal_schedule_ends_terminal`: a maximal run of four steps from `init` (member 0 answers, main
+returns it, member 1 answers and is released; the caller's Close is not a step of the code). -/
+example : ∃ s', SysRun ⟨true, true, false⟩ init 4 s' ∧ sysStep ⟨true, true, false⟩ s' = [] ∧ terminal s' = true := by
+  refine ⟨{ init with main := .returned, ret := .res0, s0 := .delivered, s1 := .released, closed1 := true, cancel1 := true }, ?_, by decide, by decide⟩
+  refine .cons (s' := exFast) (by decide) (.cons (s' := { exFast with main := .returned, ret := .res0, s0 := .delivered }) (by decide)
+    (.cons (s' := { exFast with main := .returned, ret := .res0, s0 := .delivered, s1 := .offering }) (by decide)
+    (.cons (by decide) (.nil _))))
+
+/-- The progress hypotheses are met all over the reachable sets: in every scenario with a successful
+member there is a reachable state with that success on offer while the other member is still inside its
+call; states with the caller cancelled before main returned, and non-terminal states where only a member
+can move, exist in every scenario. -/
+example : (allCfgs.all fun cfg => [false, true].all fun i => imp (cfg.ok i)
+      ((reachable cfg).any fun s => s.main != .returned && onOffer cfg s i && s.sender (other i) == .running)) = true ∧
+    (allCfgs.all fun cfg => (reachable cfg).any fun s => s.callerCancelled && s.main != .returned && s.s0 == .running && s.s1 == .running) = true ∧
+    (allCfgs.all fun cfg => (reachable cfg).any fun s => !terminal s && (codeSteps cfg s).isEmpty && s.main == .returned) = true := by
+  decide +kernel
+
 /-! ### Non-vacuity: the interesting states are reached -/
 
 /-- Settled states exist for every scenario; states with the returned reader
